@@ -214,6 +214,7 @@ def build(tier, seed, known):
     add("raw_fn_def_name2", "raw", "c: str, d: str", ["len(c) == 1", "len(d) == 1", "c in NAMECH", "d in NAMECH"],
         ["try:", "    out = transpile_det('@' + c + d + '|+;')", "except Exception:", "    return note('transpile raised')", "return ast_confirm(out, REF_rawdef) or explain('function-definition name characters changed the code shape')"], 600,
         "whole programs @cd|+; : AST and token sequence equal to those of @aa|+;", "both name characters over operators, quotes, line breaks and identifier characters (realisation-exhausted)")
+    add("twin_raw", "raw", "c: str", ["len(c) == 1", "c in CP or c in ADV"], ["out = transpile_det('(' + c)", "return names_from_vocabulary(out) and 'ghost_variable' not in out"], 300, "reachability twin for the raw family", "", "refuted")
     # twins
     add("twin_string", "string", "p: str", ["len(p) == 1", "chr(96) not in p", "chr(92) not in p"],
         ["out = transpile_det(chr(96) + p + chr(96), False)", "return code_ok(out, REF_str_top_len1_raw, 'QZQ', 'strbody') and p != chr(34)"], 120, "reachability twin", "", "refuted")
